@@ -50,6 +50,11 @@ def cases(draw, tier):
         case["cells"] = sorted(draw(st.lists(st.integers(0, n - 1),
                                              min_size=1, max_size=n,
                                              unique=True)))
+        # the list in any order (a delineation lists cells outlet first, a
+        # dictionary may hold them in any order)
+        if draw(st.booleans()):
+            case["cells"] = draw(st.permutations(case["cells"]))
+            case["order"] = "shuffled"
     elif src in ("sum", "difference"):
         # two catchments of the same flow direction grid combined with + / -
         # (one of them often small, the other anywhere on the grid)
@@ -68,6 +73,15 @@ def cases(draw, tier):
             if draw(st.booleans()) else None
     case["ratio"] = draw(st.sampled_from([1., 1., 1.5, 2., 3., 4., 0.5]))
     case["gshape"] = [draw(st.integers(1, 5)), draw(st.integers(1, 5))]
+    if draw(st.integers(0, 4)) == 0:
+        # many coarse cells in few columns, several catchment cells in each,
+        # visited in any order (a cell met again long after it was first
+        # stored)
+        case["gshape"] = [draw(st.integers(5, 10)), draw(st.integers(1, 2))]
+        case["ratio"] = draw(st.sampled_from([2., 3., 1.5, 2.]))
+        if src == "subset":
+            case["cells"] = draw(st.permutations(list(range(n))))
+            case["order"] = "shuffled"
     # the coarse grid is placed relative to one catchment cell (anchor) so
     # that overlaps are the norm: offsets in quarter fine cells
     case["anchor"] = draw(st.integers(0, 143))
@@ -138,6 +152,8 @@ def oracle(case):
     fd, ca, xll, yll = setup(case)
     csz = case["csz"]
     labels = [f"src:{case['src']}", f"ratio:{case['ratio']}"]
+    if case.get("order"):
+        labels.append("cell-list:" + case["order"])
     cells = ca.idxcells_area_filled if case["filled"] else ca.idxcells_area
     cells = np.asarray(cells, dtype=np.int64)
     xy = fd.cell2coord(cells)
